@@ -535,6 +535,14 @@ def check(pid, tier, seed, replay=None):
           % (pid, tier, seed, cq['discharged'], cq['obligations'], len(cases), distinct_nt, len(mismatches),
              cross_n - len(cross_bad), cross_n, len(mine), len(mine) - sum(len(v) for v in new_sigs.values()), time.time() - t0))
     for kind, path, suffix in violations:
+        # one diagnostic line per violation (the replay file has the details; logs of remote runs only keep stdout)
+        try:
+            rp = json.load(open(path))
+            cs = rp.get('cases') or [{}]
+            print('DETAIL %s: %s | %s | case %s comp %s input %s' % (kind, rp.get('signature', ''), str(rp.get('what', ''))[:300],
+                  cs[0].get('tag', ''), cs[0].get('comp', ''), ' '.join(str(x) for x in (cs[0].get('input') or [])[:80])))
+        except Exception:
+            pass
         print('VIOLATION property=%s replay=%s%s' % (pid, path, suffix))
     shutil.rmtree(wd, ignore_errors=True)
     return 1 if violations else 0
